@@ -142,3 +142,156 @@ pub fn h_stream_bounded(n: usize, shape: Option<&[(u8, u8, u8)]>, rev: Option<bo
         v += 1;
     }
 }
+
+/// R-stream-rerun (C15): a first stream on the graph is polled a symbolic number
+/// of times with symbolic drops and then abandoned (stream and refs dropped in
+/// either order); a second stream on the same graph value must then satisfy
+/// every oracle of a run on a fresh graph.
+pub fn h_stream_rerun(n: usize, shape: Option<&[(u8, u8, u8)]>, rev: bool) {
+    exec::reset();
+    let g = match shape {
+        Some(sh) => crate::graphs::shape_run_graph(n, sh),
+        None => sym_run_graph(n),
+    };
+    st().rev = rev;
+    let waker = exec::flag_waker();
+    let mut cx = Context::from_waker(&waker);
+    let (_, _, counts_before) = fn_graph::verif_hooks::fn_graph_parts(&g);
+    let mut inc_before = [0usize; N];
+    let mut out_before = [0usize; N];
+    let mut v = 0;
+    while v < N {
+        if v < n {
+            inc_before[v] = counts_before.incoming()[v];
+            out_before[v] = counts_before.outgoing()[v];
+        }
+        v += 1;
+    }
+    {
+        let mut held: [Option<FnRef<'_, Fx>>; N] = [const { None }; N];
+        let mut ended = false;
+        let drops: usize = if N > 2 { 2 } else { N };
+        let refs_first = nd::boolean();
+        {
+            let opts = if rev { StreamOpts::new().rev() } else { StreamOpts::new() };
+            let stream = g.stream_with(opts);
+            let mut stream = pin!(stream);
+            // 0..=2 polls of the first run
+            if nd::boolean() {
+                stream_step!(stream, cx, held, ended, drops);
+                if nd::boolean() {
+                    stream_step!(stream, cx, held, ended, drops);
+                }
+            }
+            if refs_first {
+                let mut v = 0;
+                while v < N {
+                    let r = held[v].take();
+                    drop(r);
+                    v += 1;
+                }
+            }
+        }
+        let mut v = 0;
+        while v < N {
+            let r = held[v].take();
+            drop(r);
+            v += 1;
+        }
+        let _ = ended;
+    }
+    let (_, _, counts_after) = fn_graph::verif_hooks::fn_graph_parts(&g);
+    let mut v = 0;
+    while v < N {
+        if v < n {
+            vassert!(counts_after.incoming()[v] == inc_before[v] && counts_after.outgoing()[v] == out_before[v], "C15: an abandoned run changed the predecessor counts stored in the graph");
+        }
+        v += 1;
+    }
+    // second run, from a clean trace
+    exec::reset_trace();
+    exec::clear_woken();
+    let mut held: [Option<FnRef<'_, Fx>>; N] = [const { None }; N];
+    let mut ended = false;
+    let drops: usize = N;
+    {
+        let opts = if rev { StreamOpts::new().rev() } else { StreamOpts::new() };
+        let stream = g.stream_with(opts);
+        let mut stream = pin!(stream);
+        #[cfg(feature = "n2")]
+        stream_steps!(stream, cx, held, ended, drops, [1 2 3 4 5]);
+        #[cfg(not(feature = "n2"))]
+        stream_steps!(stream, cx, held, ended, drops, [1 2 3 4 5 6 7]);
+        vcover!(ended, "reach: second stream ended with None");
+        vassert!(!ended || st().started_count() == n, "C15: a run after an abandoned run ended without every function handed out");
+    }
+    let mut v = 0;
+    while v < N {
+        let r = held[v].take();
+        drop(r);
+        v += 1;
+    }
+}
+
+/// R-stream-pair (C20): two streams on the same `&FnGraph`, polled in a symbolic
+/// interleaving, each with its own consumer and its own trace; each must
+/// satisfy the single-run oracles.
+pub fn h_stream_pair(n: usize, shape: Option<&[(u8, u8, u8)]>, rev_a: bool, rev_b: bool) {
+    exec::reset();
+    let g = match shape {
+        Some(sh) => crate::graphs::shape_run_graph(n, sh),
+        None => sym_run_graph(n),
+    };
+    exec::copy_graph_to_second();
+    exec::select(false);
+    st().rev = rev_a;
+    exec::select(true);
+    st().rev = rev_b;
+    exec::select(false);
+    let waker = exec::flag_waker();
+    let mut cx = Context::from_waker(&waker);
+    let mut held_a: [Option<FnRef<'_, Fx>>; N] = [const { None }; N];
+    let mut held_b: [Option<FnRef<'_, Fx>>; N] = [const { None }; N];
+    let mut ended_a = false;
+    let mut ended_b = false;
+    let drops: usize = 1;
+    {
+        let oa = if rev_a { StreamOpts::new().rev() } else { StreamOpts::new() };
+        let ob = if rev_b { StreamOpts::new().rev() } else { StreamOpts::new() };
+        let sa = g.stream_with(oa);
+        let mut sa = pin!(sa);
+        let sb = g.stream_with(ob);
+        let mut sb = pin!(sb);
+        macro_rules! pair_step {
+            () => {{
+                // which run moves now
+                if nd::boolean() {
+                    exec::select(false);
+                    stream_step!(sa, cx, held_a, ended_a, drops);
+                } else {
+                    exec::select(true);
+                    stream_step!(sb, cx, held_b, ended_b, drops);
+                }
+            }};
+        }
+        pair_step!();
+        pair_step!();
+        pair_step!();
+        pair_step!();
+        pair_step!();
+        pair_step!();
+        vcover!(ended_a && ended_b, "reach: both streams ended");
+        exec::select(false);
+        vassert!(!ended_a || st().started_count() == n, "C20: a stream interleaved with another run ended without every function handed out");
+        exec::select(true);
+        vassert!(!ended_b || st().started_count() == n, "C20: a stream interleaved with another run ended without every function handed out");
+    }
+    let mut v = 0;
+    while v < N {
+        let r = held_a[v].take();
+        drop(r);
+        let r = held_b[v].take();
+        drop(r);
+        v += 1;
+    }
+}
